@@ -51,6 +51,17 @@ META = {
         assumptions=["consistent hash: the ring position (md5) is not modelled; allowed = every open registered session"],
         compare=lambda cid, impl, model, tags: tags.get("member") == "1" and _member(impl, model),
     ),
+    "C14": dict(
+        rule="N concurrent callers (1..8 quick, 1..64 thorough) through the real SendSyncRequest on one session; the "
+             "fake coordinator holds all requests, then answers in a random permutation with duplicates, stragglers, "
+             "SendAsyncResponse and heart-beat traffic in between; one batch where replies never come (the 20 s "
+             "RpcRequestTimeout is waited for once, all cases in parallel) followed by late and duplicate late replies; "
+             "per-caller result (own / foreign / timeout), futures left for the case's ids, goroutines parked in "
+             "response delivery; compared with the Lean table model. non-trivial = more than one caller",
+        trusted=["fakecoord; goroutine stack scan for parked deliveries; reply marker carried in the Msg field"],
+        assumptions=["real scheduling, timers and the Go memory model are not modelled: the model is the table logic"],
+        timeout=1800,
+    ),
 }
 
 def _member(impl, model):
